@@ -62,7 +62,30 @@ func check(t interface{ Fatalf(string, ...interface{}) }, name string, p *lp.Pro
 
 // norm: the error/stack marshal functions are part of the generator's settings (C01's quantifier) and
 // stay in; programs that set them are judged for well-formedness only (see check).
-func norm(p *lp.Program) {}
+func norm(p *lp.Program) {
+	// the binary build carries a RawJSON payload verbatim inside a byte string, so trailing white
+	// space or a final line feed (what json.Encoder produces) is legal here, unlike in the JSON build
+	// where it would break the one-line rule: decorate every third RawJSON value that way
+	k := 0
+	var ops func([]lp.Op)
+	ops = func(os []lp.Op) {
+		for i := range os {
+			if os[i].V.T == "rawjson" {
+				k++
+				if k%3 == 0 {
+					os[i].V.S = append(append([]byte{}, os[i].V.S...), [][]byte{[]byte("\n"), []byte(" \n"), []byte("\r\n")}[k/3%3]...)
+				}
+			}
+			ops(os[i].V.Ops)
+		}
+	}
+	for i := range p.Events {
+		ops(p.Events[i].Ops)
+	}
+	for i := range p.Steps {
+		ops(p.Steps[i].Ops)
+	}
+}
 
 func TestRapidPrograms(t *testing.T) {
 	rapid.Check(t, func(rt *rapid.T) {
